@@ -523,6 +523,10 @@ func evalWith(fr *evalFrame, v ssa.Value, leaf leafX) (interface{}, bool) {
 
 // inlineLibrary: unexported and exported library functions with bodies may be read inline by the evaluator.
 func inlineLibrary(callee *ssa.Function) bool {
+	if callee.Pkg == nil && callee.Synthetic != "" && callee.Parent() == nil && callee.Blocks != nil && callee.Object() != nil && callee.Object().Pkg() != nil {
+		// the wrapper behind a bound method value x.M
+		return strings.HasPrefix(callee.Object().Pkg().Path(), "github.com/6tail/lunar-go")
+	}
 	return callee.Pkg != nil && callee.Blocks != nil && strings.HasPrefix(callee.Pkg.Pkg.Path(), "github.com/6tail/lunar-go")
 }
 
